@@ -8,7 +8,9 @@ E1/E2 (Mode X) are added by props/c02_explore (see OBLIGATIONS at the bottom).
 import sys
 from typing import List
 
-from engine.core import run, clen
+import json
+
+from engine.core import run, clen, enumerate_prefixes
 from engine.ob import Ob
 
 from eliot._action import Action, TaskLevel
@@ -236,6 +238,114 @@ def L7(level: List[int], j: int, k: int, m: int) -> bool:
     return run(body_L7, "S", dict(level=level, j=j, k=k, m=m))
 
 
+# -- E1: programs with a failing destination next to a healthy one (Mode X) -------------
+from engine import interp as I
+
+
+class FlakyDestination(object):
+    """Raises on a solver-chosen subset of its calls (at most F)."""
+
+    def __init__(self, ctx, max_failures):
+        self.ctx = ctx
+        self.left = max_failures
+        self.calls = 0
+        self.failed_on = []
+
+    def __call__(self, message):
+        self.calls += 1
+        if self.left > 0 and self.ctx.flag("dest-fails"):
+            self.left -= 1
+            self.failed_on.append(dict(message))
+            raise IOError("flaky destination, call %d" % self.calls)
+
+
+def placement_oracle(ctx, received, what):
+    """C02's statement, checked on the stream one accepting destination saw."""
+    seen = set()
+    first_order = {}  # (uuid, prefix) -> positions in order of first appearance
+    item = {}  # (uuid, prefix, pos) -> "start" | "end" | "msg"
+    for idx, m in enumerate(received):
+        for k in ("task_uuid", "task_level", "timestamp"):
+            ctx.check(k in m, "%s: message %d lacks %s: %r", what, idx, k, m)
+        lvl = m["task_level"]
+        ctx.check(type(m["task_uuid"]) is str and type(lvl) is list and len(lvl) >= 1 and all(type(x) is int and x >= 1 for x in lvl), "%s: bad identification in %r", what, m)
+        ctx.check(type(m["timestamp"]) is float, "%s: timestamp %r is not a float", what, m["timestamp"])
+        is_action = "action_type" in m
+        ctx.check(is_action or "message_type" in m, "%s: neither action_type nor message_type in %r", what, m)
+        if is_action:
+            ctx.check(m.get("action_status") in ("started", "succeeded", "failed"), "%s: action message without valid status: %r", what, m)
+        key = (m["task_uuid"], tuple(lvl))
+        ctx.check(key not in seen, "%s: two messages share task_uuid/task_level %r", what, key)
+        seen.add(key)
+        u = m["task_uuid"]
+        for i in range(len(lvl)):
+            k2 = (u, tuple(lvl[:i]))
+            order = first_order.setdefault(k2, [])
+            if lvl[i] not in order:
+                order.append(lvl[i])
+        kind = "msg"
+        if is_action:
+            kind = "start" if m["action_status"] == "started" else "end"
+        item[(u, tuple(lvl[:-1]), lvl[-1])] = kind
+    for (u, prefix), order in first_order.items():
+        n = len(order)
+        ctx.check(sorted(order) == list(range(1, n + 1)), "%s: positions used inside action %s%r are %r, not 1..%d", what, u, list(prefix), sorted(order), n)
+        ctx.check(order == sorted(order), "%s: inside action %s%r items were first emitted in position order %r", what, u, list(prefix), order)
+        first = item.get((u, prefix, 1))
+        if first != "start":
+            # only a context-less message may occupy position 1 without a start
+            ctx.check(prefix == () and n == 1 and first == "msg", "%s: action %s%r does not begin with its start message (position 1 is %r)", what, u, list(prefix), first)
+        ends = [p for p in order if item.get((u, prefix, p)) == "end"]
+        ctx.check(len(ends) <= 1, "%s: action %s%r has %d end messages", what, u, list(prefix), len(ends))
+        if ends:
+            ctx.check(ends[0] == n, "%s: end message of action %s%r is at position %d but %d positions are used", what, u, list(prefix), ends[0], n)
+        starts = [p for p in order if item.get((u, prefix, p)) == "start"]
+        ctx.check(starts in ([], [1]), "%s: start messages at positions %r in action %s%r", what, starts, u, list(prefix))
+    return first_order, item
+
+
+def body_E1(ctx):
+    sh = ctx.shard
+    healthy = []
+    flaky = FlakyDestination(ctx, sh.get("F", 2))
+    if sh.get("flaky_first", 1):
+        _output.Logger._destinations.add(flaky, healthy.append)
+    else:
+        _output.Logger._destinations.add(healthy.append, flaky)
+    it = I.Interp(ctx, sh.get("N", 4), sh.get("D", 3))
+    it.run()
+    first_order, item = placement_oracle(ctx, healthy, "program %s, failures on %r" % (it.render(), [f.get("task_level") for f in flaky.failed_on]))
+    # every action of the program started and ended exactly once in the stream
+    n_start = sum(1 for v in item.values() if v == "start")
+    n_end = sum(1 for v in item.values() if v == "end")
+    ctx.check(n_start == it.n_actions and n_end == it.n_actions, "program %s ran %d actions; stream has %d starts and %d ends", it.render(), it.n_actions, n_start, n_end)
+    reports = [m for m in healthy if m.get("message_type") == "eliot:destination_failure"]
+    nested_end_hit = any(f.get("action_status") in ("succeeded", "failed") and len(f["task_level"]) >= 3 for f in flaky.failed_on if "action_status" in f)
+    if nested_end_hit:
+        ctx.reached("end-of-nested-action-failed")
+    if flaky.failed_on or it.n_actions >= 2:
+        ctx.nontrivial((json.dumps(sh, sort_keys=True), tuple(ctx.trace)))
+    ctx.sample({"program": it.render(), "flaky_failed_on_levels": [f.get("task_level") for f in flaky.failed_on], "healthy_saw": len(healthy), "failure_reports": len(reports)})
+
+
+def E1() -> bool:
+    """
+    post: _
+    """
+    return run(body_E1, "X", {})
+
+
+def _e1_shards(tier):
+    N, D, F = (4, 3, 2) if tier == "quick" else (5, 3, 3)
+    profiles = [{}, {"open": 1}, {"open": 2}, {"open": 3}, {"open": 4}, {"open": 5}, {"msg": 4}, {"fin": 1}, {"exc": 2}, {"flaky_first": 0}]
+    out = []
+    for p in profiles:
+        s = dict(p, N=N if (not p or tier != "quick") else N - 1, D=D, F=F)
+        for pre in enumerate_prefixes(body_E1, "X", {}, s, 2 if tier == "quick" else 3):
+            out.append(dict(s, prefix=pre))
+    return out
+
+
 _DEPTH = "action level: any list of <= 4 integers >= 1; counter k: any integer >= 0; field value: any integer"
 
 OBLIGATIONS = [
@@ -244,5 +354,17 @@ OBLIGATIONS = [
     Ob("L3", L3, body_L3, "S", desc="child() consumes k+1; child and parent counters independent", functions=["Action.child", "Action._nextTaskLevel"], bounds={"quick": _DEPTH}, timeout={"quick": 120, "thorough": 300}),
     Ob("L4", L4, body_L4, "S", desc="log() writes position k+1", functions=["Action.log", "Logger.write", "Destinations.send"], bounds={"quick": _DEPTH}, timeout={"quick": 120, "thorough": 300}),
     Ob("L5", L5, body_L5, "S", desc="finish() writes position k+1 once; repeated finish is silent", functions=["Action.finish", "ErrorExtraction.get_fields_for_exception", "safeunicode"], bounds={"quick": _DEPTH}, timeout={"quick": 120, "thorough": 300}),
+    Ob(
+        "E1",
+        E1,
+        body_E1,
+        "X",
+        desc="programs x failure masks of a second destination: what the healthy destination saw is unique, contiguous 1..n per action, start first, end last, emitted in position order",
+        functions=["Action.__exit__", "Action.finish", "Action._nextTaskLevel", "start_action", "log_message", "Destinations.send (failure reports)", "Logger.write"],
+        shards=_e1_shards,
+        twin=[{"N": 4, "D": 3, "F": 2, "twin_label": "end-of-nested-action-failed"}],
+        timeout={"quick": 100, "thorough": 900},
+        bounds={"quick": "op sequences <= 4 ops (baseline profile; <= 3 ops for the other profiles), depth <= 3, <= 2 failing calls of the other destination at solver-chosen points (incl. on failure reports), 10 style profiles, failing destination registered before/after the healthy one", "thorough": "<= 5 ops, <= 3 failing calls"},
+    ),
     Ob("L7", L7, body_L7, "S", desc="TaskLevel order = tree pre-order", functions=["TaskLevel.__lt__", "__le__", "__gt__", "__ge__", "__eq__", "__hash__", "next_sibling", "child", "parent"], bounds={"quick": "levels of depth <= 4 (+2), any positions j<k, m>=1"}, timeout={"quick": 120, "thorough": 300}),
 ]
